@@ -353,6 +353,30 @@ func (g *Gen) harnessCorrupt(o *Occ) {
 	vrt.Reach("CorruptTo/%s/end")
 }
 `, name2, g.TQ, o.MsgName, o.MsgName, o.ID, o.ID, g.FQ, o.MsgName, o.ID, o.ID, g.FQ, o.MsgName, o.ID, o.ID, o.ID, o.ID)
+
+	// CopyTo into a target as the framework decodes it from a state whose nested blocks are null or
+	// unknown: the attribute holds an object value without an Attrs map. No panic, no error.
+	var pre strings.Builder
+	for _, s := range o.Slots {
+		if s.Kind == SMsg && s.Sub != nil && s.EmbedPtr == "" {
+			fmt.Fprintf(&pre, "\t{ nb, ub := vrt.Bool(), vrt.Bool(); if nb { tf.Attrs[%q] = types.Object{Null: !ub, Unknown: ub, AttrTypes: attrTypes_%s()} } }\n", s.Attr, s.Sub.ID)
+		}
+	}
+	if pre.Len() > 0 {
+		name3 := "Harness_CorruptToNullBlocks_" + o.ID
+		g.hs = append(g.hs, name3)
+		g.p(`func %s() {
+	ctx := context.Background()
+	var obj %s%s
+	havoc_%s(&obj)
+	tf := types.Object{AttrTypes: attrTypes_%s(), Attrs: map[string]attr.Value{}}
+%s	d := %sCopy%sToTerraform(ctx, &obj, &tf)
+	vrt.CheckNoPanic("C06/to-null-blocks/%s:no-panic")
+	vrt.Assert("C06/to-null-blocks/%s:no-error-diagnostic", !d.HasError())
+	vrt.Reach("CorruptToNullBlocks/%s/end")
+}
+`, name3, g.TQ, o.MsgName, o.MsgName, o.ID, pre.String(), g.FQ, o.MsgName, o.ID, o.ID, o.ID)
+	}
 }
 
 // typesCheckElem: attribute types removed from a list / map element type: all elements share one path per
